@@ -560,6 +560,37 @@ theorem isolation_chain_init {s : State} {ctx : List (Nat × Body)} (hw : ∀ p 
     Lic n v [] ctx :=
   isolation_chain inv_init rfl hw hr n v hv
 
+/-- C14.isolation (uses, converse of `isolation_use_local`)  Inside a file a `.du32 n` statement leaves the log alone,
+pushes one diagnostic, or writes at once exactly the current file's valued entry for `n` — nothing else is read. -/
+theorem isolation_use_resolves {s s' : State} {l : Table} {n : Bytes} {tag : Nat} {r : Option Level}
+    (hd : s.depth ≠ 0) (hl : s.locals = some l) (h : stmt s (.use n tag) = .ok (s', r)) :
+    s'.log = s.log ∨ (∃ k, s'.log = .diag tag k :: s.log) ∨
+      (∃ v, l.find n = some (some v) ∧ s'.log = .value tag v 0 :: s.log) :=
+  use_resolves hd hl h
+
+/-- C14.isolation (resolution, whole run)  If at some position of a project started from `Context::new()` a `.du32 n`
+statement of the current file writes the value `v` at once, then the chain condition `Lic n v [] ctx` holds: `n`
+resolves only via `.import` edges upwards and `.export`/`.global` edges downwards to a definition `n = v`. -/
+theorem isolation_resolve {s s' : State} {ctx : List (Nat × Body)} (hw : ∀ p ∈ ctx, p.2.wf) (hne : ctx ≠ [])
+    (hr : Reach init ctx s) {n : Bytes} {tag : Nat} {r : Option Level} {v : Int}
+    (h : stmt s (.use n tag) = .ok (s', r)) (hlog : s'.log = .value tag v 0 :: s.log) : Lic n v [] ctx := by
+  have hi := reach_inv inv_init ctx hr
+  have hf : s.frames ≠ [] := by
+    rcases (reach_lic inv_init rfl n v ctx hw hr).1 with h1 | h1
+    · exact absurd h1 hne
+    · exact h1
+  have hd : s.depth ≠ 0 := by
+    rw [hi.depth]; intro h0; exact hf (List.eq_nil_of_length_eq_zero h0)
+  obtain ⟨l, hl⟩ := Option.isSome_iff_exists.1 (hi.inFile hf).locals
+  have hvis : visible s = l := by simp [visible, hl]
+  rcases use_resolves hd hl h with h1 | ⟨k, h1⟩ | ⟨v', hv', h1⟩
+  · rw [h1] at hlog
+    have := congrArg List.length hlog
+    simp at this
+  · rw [h1] at hlog; cases hlog
+  · rw [h1] at hlog; cases hlog
+    exact isolation_chain_init hw hr n v (by rw [hvis]; exact hv')
+
 /-! ## non-vacuity -/
 
 /-- the names of the register file are reserved, case-insensitively; ordinary names are not -/
@@ -637,8 +668,11 @@ private def st (ops : List Op) : State :=
 example : Reach init [(5, childPre), (0, rootPre)]
       (st (.enter 0 :: rootPre.flatten ++ .enter 5 :: childPre.flatten)) ∧
     (visible (st (.enter 0 :: rootPre.flatten ++ .enter 5 :: childPre.flatten))).find y = some (some 5) ∧
-    Lic y 5 [] [(5, childPre), (0, rootPre)] ∧ ¬ Lic x 7 [] [(5, childPre), (0, rootPre)] := by
-  refine ⟨⟨st (.enter 0 :: rootPre.flatten), ⟨init, rfl, rfl, by rfl⟩, by rfl, by rfl⟩, by decide, ?_, ?_⟩
+    Lic y 5 [] [(5, childPre), (0, rootPre)] ∧ ¬ Lic x 7 [] [(5, childPre), (0, rootPre)] ∧
+    (∃ s' r, stmt (st (.enter 0 :: rootPre.flatten ++ .enter 5 :: childPre.flatten)) (.use y 9) = .ok (s', r) ∧
+      s'.log = .value 9 5 0 :: (st (.enter 0 :: rootPre.flatten ++ .enter 5 :: childPre.flatten)).log) := by
+  refine ⟨⟨st (.enter 0 :: rootPre.flatten), ⟨init, rfl, rfl, by rfl⟩, by rfl, by rfl⟩, by decide, ?_, ?_,
+    ⟨_, _, by rfl, by rfl⟩⟩
   · exact .inr ⟨.inl rfl, .inl (.later (.child (by simp [Body.names, Op.names]) (.here ⟨rfl, rfl⟩)))⟩
   · intro h
     rcases h with h | ⟨h, _⟩
